@@ -63,3 +63,7 @@ CLAIMS["C17"] = (
  "runtime monitor with reference model on package lib: Diff->Patch in memory and through Render/ReadDiffString judged by lib's Equals and an independent canonical form; diff-empty <=> Equals <=> oracle; real binary with -v2=false",
  "Held on every executed (a, b, metadata) over 8 metadata sets (random pairs with growing/shrinking/in-place arrays, keyed members, equal-under-reading pairs), all array pairs over {1,2,3} up to length 4 at three positions and as SET/MULTISET, the FuzzJd corpus, and -v2=false diff|patch pipelines.",
  TB, "DESIGN.md 5.17")
+CLAIMS["C18"] = (
+ "runtime monitor with reference models on package lib: RenderPatch / RenderMerge texts evaluated by independent RFC 6902 / RFC 7386 evaluators on a, and read back with the v1 readers and applied",
+ "Held on every executed pair: list mode incl. integer-like and escaping-hostile keys and '/-' appends (random + all array pairs over {1,2,3} up to length 4 at three positions), merge mode on null-free differing pairs (random + exhaustive small family); the document {} read back as a no-op is the open known finding F18.",
+ TB, "DESIGN.md 5.18")
